@@ -13,6 +13,11 @@ ITEMS = [
     # bounded(100): capacity of the command channel
     ("cmd_queue_bound", [], "N", SD, r"pub fn new_with_port\(port: u16\) -> Result<Self>",
      r"let \(sender, receiver\) = bounded\((?P<e>[^)]+)\);", {}, False),
+    # bounded(10): capacity of a browse / hostname-resolution listener (the daemon's `send` blocks when full)
+    ("browse_listener_bound", [], "N", SD, r"pub fn browse\(&self, service_type: &str\) -> Result<Receiver<ServiceEvent>>",
+     r"bounded\((?P<e>[^)]+)\);", {}, False),
+    ("resolver_listener_bound", [], "N", SD, r"pub fn resolve_hostname\(",
+     r"bounded\((?P<e>[^)]+)\);", {}, False),
     # check_service_name_length
     ("svc_type_too_short", [("ty_len", "N"), ("domain_len", "N")], "bool", SD, r"(?m)^fn check_service_name_length\(ty_domain: &str, limit: u8\) -> Result<\(\)>",
      r"if (?P<e>ty_domain\.len\(\) <= [^{]+?) \{", {"ty_domain.len()": "ty_len", "DOMAIN_LEN": "domain_len"}, False),
